@@ -3,7 +3,7 @@ from . import relayworld as rw
 
 PROP = 'C07'
 PROFILE = 'c07'
-QUICK = (200, 40, 60.0)
+QUICK = (400, 40, 60.0)
 THOROUGH = (1500, 60, 840.0)
 boot, execute, cfg_sig, nontrivial = rw.boot, rw.execute, rw.cfg_sig, rw.nontrivial
 SHRINK_LISTS, SHRINK_DICTS = rw.SHRINK_LISTS, rw.SHRINK_DICTS
